@@ -6,6 +6,7 @@ import SqlgrepModel.Drivers.Print
 import SqlgrepModel.Drivers.Extract
 import SqlgrepModel.Drivers.Join
 import SqlgrepModel.Drivers.Lex
+import SqlgrepModel.Drivers.ParseStmt
 /- Line protocol driver: `<kind> <payload…>` per line in, one answer line out. -/
 open Sqlgrep
 
@@ -29,6 +30,8 @@ def dispatch (line : String) : String :=
     | "onres" => Drivers.Join.handleOnRes args
     | "tok" => Drivers.Lex.handleTok args
     | "near" => Drivers.Lex.handleNear args
+    | "pstmt" => Drivers.ParseStmt.handle args
+    | "stmt" => Drivers.ParseStmt.handleStmt args
     | _ => "unknown-kind"
   | _ => "bad-line"
 
